@@ -24,6 +24,7 @@ var _ = Service("svc", func() {
 			Attribute("grid", ArrayOf(ArrayOf(Int)))
 			Attribute("nums", ArrayOf(UInt32))
 			Attribute("label", String)
+			Attribute("ids", ArrayOf(Int), func() { Default([]int{1, 2}) })
 			Required("org", "tenant")
 		})
 		Result(func() {
@@ -37,6 +38,7 @@ var _ = Service("svc", func() {
 		HTTP(func() {
 			POST("/mixed")
 			Header("nums:X-Nums")
+			Param("ids")
 			Body(func() {
 				Attribute("ratio")
 				Attribute("blob")
@@ -58,7 +60,11 @@ var _ = Service("svc", func() {
 		Payload(func() {
 			Attribute("org", String)
 			Attribute("tenant", String)
-			Attribute("ver", UInt)
+			// same service-level parameter as in "mixed", defined differently
+			Attribute("ver", UInt, func() {
+				Default(7)
+				Maximum(100)
+			})
 			Required("org", "tenant")
 		})
 		Result(func() {
